@@ -588,7 +588,7 @@ func genCase(rt *rapid.T) *Case {
 
 func TestRandom(t *testing.T) {
 	ev.SetChecks(ev.Scale(9000, 1000000))
-	rapid.Check(t, func(rt *rapid.T) {
+	ev.Check(t, func(rt *rapid.T) {
 		c := genCase(rt)
 		if !run(c, "random", func(string, string) {}) {
 			rt.Fatalf("C06/random: partial evaluation is unsound for some completion")
@@ -883,6 +883,9 @@ func TestReplay(t *testing.T) {
 	}
 	if err != nil {
 		t.Fatal(err)
+	}
+	if ev.ReplayFuzz(t, rf, fuzzProps, nil) {
+		return
 	}
 	var c Case
 	if err := json.Unmarshal(rf.Case, &c); err != nil || c.Policy == nil {
